@@ -8,6 +8,8 @@ import OmbottModel.Lemmas.RouterPrint
 import OmbottModel.Lemmas.RouterSound
 import OmbottModel.Model.RouterBuiltin
 import OmbottModel.Gen.Routerbuiltin
+import OmbottModel.Lemmas.RouterBuiltinEnv
+import OmbottModel.Lemmas.RouterBuiltinHist
 /-!
 C01 — Route resolution equals the plain rule-by-rule semantics.
 Property theorems only; helper lemmas live in `Lemmas/Router*.lean`.
@@ -308,6 +310,92 @@ theorem resolve_notFound_iff_miss (env : FilterEnv) (R : Router) (path : Str) (m
 
 
 
+/-! ## the built-in filters made concrete
+
+`Model/RouterBuiltinEnv.lean` computes the handlers of `int`, `float` and `path` instead of taking
+their answers as a parameter (`Ombott.Builtins.withBuiltin fc env`: `env` is consulted for user
+regular expressions only; `fc` is `float(text)` for the matched texts outside the exactly modelled
+domain — more than 15 significant digits, or beyond 1e-291 … 1e300).  The driver lines `router
+histb` run exactly this environment. -/
+section Builtin
+open Ombott.Builtins Ombott.RouteUrl
+
+/-- the value as the harness ships it: is it a `str`, its text -/
+def rbShow (r : FilterRes) : Bool × Str × Nat :=
+  match r.val with
+  | .str s => (true, s, r.n)
+  | .conv s => (false, s, r.n)
+
+/-- `float(text)` as probed on the live converter for the table's texts outside `exactDec` -/
+def rbFc : FloatConv := fun m =>
+  match Gen.rbFloatConv.find? (·.1 == m) with
+  | some (_, r) => .conv ("float:".toList ++ r)
+  | none => .conv "float:?".toList
+
+/-- **Built-in filters, the concrete environment.**  On the probe table taken from the live
+handlers on every run (handler identity `name(args)`, text ↦ value as shipped and characters
+consumed; signs, leading zeros, non-ASCII digits, 15/16/17-digit and very long numerals, values
+whose `repr` uses exponent notation, newlines in front of and behind the `path` look-ahead,
+look-ahead literals made of regex metacharacters) the concrete environment answers exactly what
+the live handlers answer. -/
+theorem builtin_env_probes_agree :
+    (Gen.rbEnvProbes.all fun p =>
+      (builtinEnv rbFc p.1.toList p.2.1).map rbShow == p.2.2) = true := by
+  decide +kernel
+
+/-- none of the concrete handlers answers with a `rex` selector: the hypothesis `NoSel` of the
+theorems above is met by the concrete environment itself -/
+theorem builtin_env_no_selectors (fc : FloatConv) : NoSel (builtinEnv fc) := noSel_builtinEnv fc
+
+/-- **The property for rule sets of built-in wildcards, without an opaque filter environment.**
+For every history whose successfully parsed rule texts use only plain, `int`, `float` and `path`
+wildcards (`builtinPat`, decidable on the parsed pattern) and every path, `RadiRouter.resolve` run
+with the concrete handlers — whatever stands in the environment for other filters — answers
+"not found" exactly when no registered rule matches rule-by-rule *under the concrete semantics of
+the built-in filters* (`builtinEnv fc`: no filter parameter left except `float(text)` for numerals
+of more than 15 significant digits), and otherwise dispatches on the rule the plain matcher selects
+with the concretely converted values. -/
+theorem resolve_eq_rule_by_rule_builtin (upper : Str → Str) (ops : List Op) (hok : ∀ op ∈ ops, OpOK op)
+    (hb : ∀ cenv a p, Op.add cenv a ∈ ops → parseRule cenv a.rule = .ok p → builtinPat p.syms = true)
+    (fc : FloatConv) (env : FilterEnv) (hs : NoSel env) (path : Str) (ms : List Str) :
+    match specResolve (builtinEnv fc) (Router.run upper ops).rules (stripSlash path) with
+    | none => ∃ v h p, (Router.run upper ops).resolve (withBuiltin fc env) path ms = .notFound v h p
+    | some (rule, vs) => ∃ route hooks,
+        (Router.run upper ops).obj? rule.data = some route ∧ route.syms = rule.pat ∧
+        (Router.run upper ops).resolve (withBuiltin fc env) path ms =
+          match route.getItem ms with
+          | .ok m => .found m.handler m.name
+              (makeParamsDict (if m.params.isEmpty then rule.keys else m.params) vs) hooks
+          | .error _ => .notAllowed (joinComma (sortStrs (route.methods.map (·.1)))) := by
+  have h := resolve_eq_rule_by_rule upper ops hok (withBuiltin fc env) (noSel_withBuiltin fc env hs) path ms
+  have hr := run_rules (Q := fun s => builtinPat s = true) upper ops hb
+  rw [specResolve_builtin_indep fc env (fun _ _ => none) _ hr] at h
+  exact h
+
+/-- **`filter_guard`, concretely.**  In such a history every keyword argument a handler receives
+is, for some wildcard `f` of a built-in kind and some non-empty remainder `s` of the path, exactly
+what `BuiltinAnswer` spells out: plain — the text of `s` up to the next separator; `int` — the
+integer value of the `-?\d+` text at the start of `s`; `float` — the numeral matched by
+`-?\d+(\.\d+)?` at the start of `s`; `path` — the longest newline-free non-empty prefix of `s`
+followed by the literal text that follows the wildcard in the rule.  No filter parameter is
+mentioned. -/
+theorem filter_guard_builtin (upper : Str → Str) (ops : List Op) (hok : ∀ op ∈ ops, OpOK op)
+    (hb : ∀ cenv a p, Op.add cenv a ∈ ops → parseRule cenv a.rule = .ok p → builtinPat p.syms = true)
+    (fc : FloatConv) (env : FilterEnv) (hs : NoSel env) (path : Str) (ms : List Str)
+    (h : Nat) (mname : Str) (kw : List (Str × Val)) (hooks : List (Nat × HookPair))
+    (hres : (Router.run upper ops).resolve (withBuiltin fc env) path ms = .found h mname kw hooks) :
+    ∀ k v, (k, v) ∈ kw → ∃ f s, s <:+ stripSlash path ∧ s ≠ [] ∧ BuiltinAnswer fc f s v := by
+  obtain ⟨cenv, a, p, vs, hop, _, _, hp, hm, rfl⟩ :=
+    params_are_rule_names upper ops hok (withBuiltin fc env) (noSel_withBuiltin fc env hs) path ms h mname kw hooks hres
+  intro k v hkv
+  have hv : v ∈ vs := (List.of_mem_zip (makeParamsDict_mem hkv).1).2
+  obtain ⟨f, s, r, hmem, h2, h3, h4, h5⟩ := matchRule_vals hm v hv
+  refine ⟨f, s, h2, h3, ?_⟩
+  rw [← h5]
+  exact builtinAnswer_of_tokRes fc env f (fun g hg => builtinPat_mem (hb cenv a p hop hp) (by rw [← hg]; exact hmem)) h4
+
+end Builtin
+
 /-! ## Non-vacuity: concrete instances meeting the hypotheses -/
 section NonVacuity
 
@@ -445,6 +533,61 @@ example : (∀ op ∈ nvOpsSel, OpOK op) ∧
 /-- the filter rejects: not found -/
 example : (Router.run asciiUpper nvOps).resolve nvEnv "/a/x".toList ["POST".toList, "ANY".toList] =
     .notFound [] [] "a/".toList := by decide +kernel
+
+
+
+/-! ### the built-in section -/
+section BuiltinNV
+open Ombott.Builtins Ombott.RouteUrl
+
+/-- `/dl/<p:path>.tar/img/<n:int>.png`, `/w/<x:float>`, `/f/<p:path>.tar/<rest:path>` -/
+def nvOpsB : List Op :=
+  [ .add nvCenv { rule := "/dl/<p:path>.tar/img/<n:int>.png".toList, methods := ["GET".toList], handler := 0 },
+    .add nvCenv { rule := "/w/<x:float>".toList, methods := ["GET".toList], handler := 1 },
+    .add nvCenv { rule := "/f/<p:path>.tar/<rest:path>".toList, methods := ["GET".toList], handler := 2 } ]
+
+theorem nvOpsB_ok : ∀ op ∈ nvOpsB, OpOK op := by
+  intro op hop
+  simp only [nvOpsB, List.mem_cons, List.not_mem_nil, or_false] at hop
+  rcases hop with rfl | rfl | rfl <;> exact rule_without_marker_ok _ _ (by decide +kernel)
+
+theorem builtin_of_parse {cenv : CompileEnv} {rule : Str} {p : Parsed}
+    (h1 : ((parseRule cenv rule).toOption.map fun q => builtinPat q.syms) = some true)
+    (h2 : parseRule cenv rule = .ok p) : builtinPat p.syms = true := by
+  rw [h2] at h1
+  simpa [Except.toOption] using h1
+
+/-- the hypothesis `hb` of `resolve_eq_rule_by_rule_builtin` / `filter_guard_builtin`: every rule
+text of the history parses to a pattern of built-in wildcards (decidable per rule text) -/
+theorem nvOpsB_builtin : ∀ cenv a p, Op.add cenv a ∈ nvOpsB → parseRule cenv a.rule = .ok p → builtinPat p.syms = true := by
+  intro cenv a p hop hp
+  simp only [nvOpsB, List.mem_cons, List.not_mem_nil, or_false, Op.add.injEq] at hop
+  rcases hop with ⟨rfl, rfl⟩ | ⟨rfl, rfl⟩ | ⟨rfl, rfl⟩
+  · exact builtin_of_parse (cenv := nvCenv) (rule := "/dl/<p:path>.tar/img/<n:int>.png".toList) (by decide +kernel) hp
+  · exact builtin_of_parse (cenv := nvCenv) (rule := "/w/<x:float>".toList) (by decide +kernel) hp
+  · exact builtin_of_parse (cenv := nvCenv) (rule := "/f/<p:path>.tar/<rest:path>".toList) (by decide +kernel) hp
+
+def nvFc : FloatConv := fun _ => .conv "float:?".toList
+
+/-- the greedy `path` wildcard runs to the *last* `.tar/img/` followed by an integer; the `int`
+wildcard converts `007`; the `float` wildcard reads `-0012.50` as `-12.5`; a numeral with a
+17th digit is left to the converter parameter -/
+example :
+    (Router.run asciiUpper nvOpsB).resolve (builtinEnv nvFc) "/dl/a.tar/img/b.tar/img/007.png".toList ["GET".toList] =
+      .found 0 "GET".toList [("p".toList, .str "a.tar/img/b".toList), ("n".toList, .conv "int:7".toList)] [] ∧
+    (Router.run asciiUpper nvOpsB).resolve (builtinEnv nvFc) "/w/-0012.50".toList ["GET".toList] =
+      .found 1 "GET".toList [("x".toList, .conv "float:-12.5".toList)] [] ∧
+    (Router.run asciiUpper nvOpsB).resolve (builtinEnv nvFc) "/w/0.00001".toList ["GET".toList] =
+      .found 1 "GET".toList [("x".toList, .conv "float:1e-05".toList)] [] ∧
+    (Router.run asciiUpper nvOpsB).resolve (builtinEnv nvFc) "/w/12345678901234567".toList ["GET".toList] =
+      .found 1 "GET".toList [("x".toList, .conv "float:?".toList)] [] ∧
+    (Router.run asciiUpper nvOpsB).resolve (builtinEnv nvFc) "/f/a.tar/b.tar/x.png".toList ["GET".toList] =
+      .found 2 "GET".toList [("p".toList, .str "a.tar/b".toList), ("rest".toList, .str "x.png".toList)] [] ∧
+    (Router.run asciiUpper nvOpsB).resolve (builtinEnv nvFc) "/w/1.5x".toList ["GET".toList] =
+      .notFound [.conv "float:1.5".toList] [] "w/1.5".toList := by
+  decide +kernel
+
+end BuiltinNV
 
 end NonVacuity
 
